@@ -1020,6 +1020,12 @@ func (lb *LB) callLenContract(c *ssa.Call) ([]cons, bool) {
 			if sc := mk.Call.StaticCallee(); sc != nil && sc.Name() == "New" && sc.Pkg != nil && rel(sc.Pkg.Pkg.Path()) == "sm3" {
 				return eqc(me, lb.lenLin(cc.Args[0]).addScaled(linConst(32), 1)), true
 			}
+			// the standard library's fixed-size digests
+			if sc := mk.Call.StaticCallee(); sc != nil && sc.Pkg != nil {
+				if n, ok := map[string]int64{"crypto/md5.New": 16, "crypto/sha1.New": 20, "crypto/sha256.New": 32, "crypto/sha256.New224": 28, "crypto/sha512.New": 64, "crypto/sha512.New384": 48}[sc.String()]; ok {
+					return eqc(me, lb.lenLin(cc.Args[0]).addScaled(linConst(n), 1)), true
+				}
+			}
 		}
 		out := []cons{ge(me, lb.lenLin(cc.Args[0]).addScaled(linConst(add), 1))}
 		// h.Sum(b) appends exactly h.Size() bytes: tie to a Size() call on the same hash object
